@@ -90,14 +90,7 @@ func read_atom(rdr *tokenReader) (MalType, error) {
 		}
 		return int(i), nil
 	case scanner.String:
-		str := (*token)[1 : len(*token)-1]
-		return strings.Replace(
-			strings.Replace(
-				strings.Replace(
-					strings.Replace(str, `\\`, "\u029e", -1),
-					`\"`, `"`, -1),
-				`\n`, "\n", -1),
-			"\u029e", "\\", -1), nil
+		return unescapeString((*token)[1 : len(*token)-1]), nil
 	case scanner.RawString:
 		if *token == "¬" {
 			return nil, lisperror.NewLispError(errors.New("expected '¬', got EOF"), tokenStruct.GetPosition())
@@ -128,6 +121,36 @@ func read_atom(rdr *tokenReader) (MalType, error) {
 			Cursor: tokenStruct.GetPosition(),
 		}, nil
 	}
+}
+
+// unescapeString undoes the three escapes the printer produces (\\ \" \n) in one
+// pass, leaving every other character (including U+029E) untouched.
+func unescapeString(str string) string {
+	if !strings.Contains(str, "\\") {
+		return str
+	}
+	var sb strings.Builder
+	sb.Grow(len(str))
+	for i := 0; i < len(str); i++ {
+		if str[i] == '\\' && i+1 < len(str) {
+			switch str[i+1] {
+			case '\\':
+				sb.WriteByte('\\')
+				i++
+				continue
+			case '"':
+				sb.WriteByte('"')
+				i++
+				continue
+			case 'n':
+				sb.WriteByte('\n')
+				i++
+				continue
+			}
+		}
+		sb.WriteByte(str[i])
+	}
+	return sb.String()
 }
 
 func read_list(rdr *tokenReader, start string, end string, placeholderValues *HashMap, ns EnvType) (MalType, error) {
